@@ -2,7 +2,7 @@
 
 use std::{
     fs::File,
-    io::{self, BufReader, BufWriter},
+    io::{self, BufReader, BufWriter, Write},
     path::Path,
 };
 
@@ -49,5 +49,7 @@ where
     P: AsRef<Path>,
 {
     let mut writer = File::create(dst).map(BufWriter::new).map(Writer::new)?;
-    writer.write_index(index)
+    writer.write_index(index)?;
+    // Dropping the `BufWriter` would discard the error of the final write.
+    writer.get_mut().flush()
 }
